@@ -304,7 +304,7 @@ def comb_capacity(rep, u, curves=None):
         for k, m in ((1, W - 1), (2, W), (2, W + 1), (3, 2 * W), (3, 2 * W + 32), (3, 3 * W - 1), (9, 521)):
             if k * W <= m:
                 continue
-            bind = {d + "->digits": k, "curve->m": m, "mult_data->wnd_bits": 4, "mult_data->wnd_count": (m + 3) // 4,
+            bind = {d: 0x5000, d + "->digits": k, "curve->m": m, "mult_data->wnd_bits": 4, "mult_data->wnd_count": (m + 3) // 4,
                     "mult_data->e_count": ((m + 3) // 4 + 1) // 2, "bn_is_one(%s)" % d: 0, "bn_is_zero(%s)" % d: 0,
                     "point": 0x1000, "mult_data": 0x2000, "curve": 0x3000}
             pos, c = reads[0]
@@ -319,6 +319,24 @@ def comb_capacity(rep, u, curves=None):
             continue
         # (b) guard of the form bn_cmp(d, &curve->n)
         cmpn = [c for _, _, c, _ in fn.calls({"bn_cmp"}) if key(core.strip_casts(c["args"][0])) == d and "curve->n" in key(c["args"][1])]
+        # (c) guard of the form bn_calc_bits(d) > E in a branch condition: E = curve->m is exactly what is needed,
+        #     E = bn_calc_bits(&curve->n) bounds the scalar by bitlen(n) like (b)
+        bits_vs = None
+        for bid in fn.reachable_blocks():
+            cnd = fn.blocks[bid].cond
+            if cnd is None:
+                continue
+            for x, _ in walk(cnd):
+                if x.get("k") == "bin" and x["op"] in (">", "<", ">=", "<="):
+                    kx, ky = key(core.strip_casts(x["x"])), key(core.strip_casts(x["y"]))
+                    for a_, b_ in ((kx, ky), (ky, kx)):
+                        if a_ == "bn_calc_bits(%s)" % d:
+                            bits_vs = b_
+        if bits_vs == "curve->m":
+            rep.proved("R-CAP", fn, "comb-capacity", desc, "guarded by bn_calc_bits(%s) against curve->m" % d)
+            continue
+        if bits_vs is not None and "curve->n" in bits_vs:
+            cmpn = cmpn or [bits_vs]
         if cmpn and curves:
             badc = [(nm, nb, m) for nm, nb, m in curves if nb > m]
             if badc:
